@@ -103,11 +103,24 @@ Definition succ_path (p : pc) : bool :=
   | _ => false
   end.
 
+Lemma step_regrant_frame q s t s' :
+  step q cfg s t LRegrant = Some s' -> pcs s' = pcs s /\ objs s' = objs s /\ ver s' = ver s.
+Proof.
+  unfold step. intros H.
+  assert (E : Some (if q_regrant_revokes q then
+              {| queue := remove_m (t_mem (cfg t)) (queue s); local := local s; pcs := pcs s;
+                 reg := reg s; objs := objs s; ver := ver s; log := log s |} else s) = Some s')
+    by (destruct (pcs s t); exact H).
+  destruct (q_regrant_revokes q); inversion E; subst; auto.
+Qed.
+
 Lemma step_succ_path_pres q s t l s' t' :
   step q cfg s t l = Some s' -> succ_path (pcs s t') = true -> succ_path (pcs s' t') = true.
 Proof.
-  intros H Hs. unfold step in H.
-  destruct l; destruct (pcs s t) as [| | |k| r| r| r|] eqn:Ep; try discriminate;
+  intros H Hs. destruct (label_eq_dec l LRegrant) as [->|Hnr].
+  { destruct (step_regrant_frame _ _ _ _ H) as (E & _). rewrite E. assumption. }
+  unfold step in H.
+  destruct l; try congruence; destruct (pcs s t) as [| | |k| r| r| r|] eqn:Ep; try discriminate;
   try (destruct (Nat.eq_dec t' t) as [->|Hne];
        [rewrite Ep in Hs; try discriminate|]).
   all: try (unfold cs_step in H; destruct (t_req (cfg t)); try discriminate;
@@ -132,8 +145,10 @@ Qed.
 Lemma step_not_succ_unchanged q s t l s' :
   step q cfg s t l = Some s' -> succ_path (pcs s' t) = false -> objs s' = objs s /\ ver s' = ver s.
 Proof.
-  intros H Hs. unfold step in H.
-  destruct l; destruct (pcs s t) as [| | |k| r| r| r|] eqn:Ep; try discriminate.
+  intros H Hs. destruct (label_eq_dec l LRegrant) as [->|Hnr].
+  { destruct (step_regrant_frame _ _ _ _ H) as (_ & E). exact E. }
+  unfold step in H.
+  destruct l; try congruence; destruct (pcs s t) as [| | |k| r| r| r|] eqn:Ep; try discriminate.
   all: try (unfold cs_step in H; destruct (t_req (cfg t)); try discriminate;
             repeat (destruct k as [|k]; try discriminate)).
   all: repeat match type of H with
@@ -160,7 +175,7 @@ Qed.
 End Thm.
 
 (** *** the pinned defect: with one process-local lock per HANDLE two threads of one member hold the lock *)
-Definition quirk_local_per_handle : quirks := {| q_local_per_handle := true |}.
+Definition quirk_local_per_handle : quirks := {| q_local_per_handle := true; q_regrant_revokes := false |}.
 
 Definition refute_cfg : tid -> thr := fun t => {| t_mem := O; t_hnd := t; t_req := RNoop; t_to := false |}.
 Definition refute_sched : list (tid * label) :=
@@ -180,6 +195,27 @@ Proof.
   - vm_compute in E. discriminate.
 Qed.
 
+(** *** why the lease re-grant must leave the lock key in place: if it dropped the key of the
+    member (session replaced, old lease revoked) a thread of another member gets in *)
+Definition quirk_regrant_revokes : quirks := {| q_local_per_handle := false; q_regrant_revokes := true |}.
+
+Definition regrant_cfg : tid -> thr := fun t => {| t_mem := t; t_hnd := O; t_req := RNoop; t_to := false |}.
+Definition regrant_sched : list (tid * label) :=
+  [(0, LLocalLock); (0, LPut); (0, LAcquire); (0, LRegrant); (1, LLocalLock); (1, LPut); (1, LAcquire)]%nat.
+
+Lemma refuted_regrant_revokes :
+  exists cfg sched s,
+    run quirk_regrant_revokes cfg (init ([], 0)) sched = Some s /\
+    in_cs (pcs s 0%nat) = true /\ in_cs (pcs s 1%nat) = true /\
+    run ideal cfg (init ([], 0)) sched = None.
+Proof.
+  exists regrant_cfg, regrant_sched.
+  destruct (run quirk_regrant_revokes regrant_cfg (init ([], 0)) regrant_sched) as [s|] eqn:E.
+  - exists s. split; [reflexivity|].
+    vm_compute in E. inversion E; subst; clear E. vm_compute. auto.
+  - vm_compute in E. discriminate.
+Qed.
+
 (** *** non-vacuity: two members, four requests, interleaved schedule *)
 Definition ex_cfg : tid -> thr := fun t =>
   match t with
@@ -192,7 +228,7 @@ Definition ex_cfg : tid -> thr := fun t =>
 
 Definition ex_sched : list (tid * label) :=
   [(0, LLocalLock); (1, LLocalLock); (1, LPut); (0, LPut); (4, LLocalLock); (4, LPut);
-   (1, LAcquire); (1, LCs); (4, LTimeout); (1, LCs); (1, LCs); (1, LCs); (1, LEtcdUnlock);
+   (1, LAcquire); (1, LCs); (1, LRegrant); (4, LTimeout); (1, LCs); (1, LCs); (1, LCs); (1, LEtcdUnlock);
    (0, LAcquire); (1, LLocalUnlock); (3, LLocalLock); (0, LCs); (3, LPut); (0, LEtcdUnlock);
    (0, LLocalUnlock); (2, LLocalLock); (2, LPut); (3, LAcquire); (3, LCs); (3, LCs); (3, LCs); (3, LCs);
    (3, LEtcdUnlock); (3, LLocalUnlock); (2, LAcquire); (2, LCs); (2, LEtcdUnlock); (2, LLocalUnlock)]%nat.
